@@ -35,6 +35,29 @@ const LINKS_SIZE: usize = std::mem::size_of::<Links>();
 /// Maximum node size (with full tower)
 pub(crate) const MAX_NODE_SIZE: usize = std::mem::size_of::<Node>() + (MAX_HEIGHT - 1) * LINKS_SIZE;
 
+/// Alignment of a node inside the arena.
+const NODE_ALIGNMENT: u32 = 8;
+
+/// Arena bytes taken by an empty list: the reserved null offset, head and tail.
+pub(crate) const EMPTY_ARENA_SIZE: usize = 1 + 2 * (MAX_NODE_SIZE + NODE_ALIGNMENT as usize - 1);
+
+/// Arena bytes that allocating a node of this height takes.
+pub(crate) fn node_arena_bytes(height: u32, key_size: usize, value_size: usize) -> u64 {
+	let unused_size = (MAX_HEIGHT - height as usize) * LINKS_SIZE;
+	(MAX_NODE_SIZE - unused_size + key_size + value_size + NODE_ALIGNMENT as usize - 1) as u64
+}
+
+/// Random height of a new node.
+pub(crate) fn random_height() -> u32 {
+	let rnd: u32 = rand::rng().random();
+	let mut h = 1u32;
+	let probs = probabilities();
+	while h < MAX_HEIGHT as u32 && rnd <= probs[h as usize] {
+		h += 1;
+	}
+	h
+}
+
 /// Precomputed probabilities for random height generation
 fn probabilities() -> &'static [u32; MAX_HEIGHT] {
 	static PROBABILITIES: std::sync::OnceLock<[u32; MAX_HEIGHT]> = std::sync::OnceLock::new();
@@ -196,7 +219,7 @@ fn new_raw_node(arena: &Arena, height: u32, key_size: u32, value_size: u32) -> O
 
 	let node_offset = arena.alloc(
 		(node_size as u32) + key_size + value_size,
-		8, // nodeAlignment
+		NODE_ALIGNMENT,
 		unused_size as u32,
 	)?;
 
@@ -310,10 +333,18 @@ impl Skiplist {
 		self.arena.size() as u32
 	}
 
-	/// Add a key
-	pub fn add(&self, key: &[u8], trailer: u64, timestamp: u64, value: &[u8]) -> Result<(), Error> {
+	/// Add a key whose node gets the given height (the caller draws it with
+	/// `random_height`, to know beforehand how much arena the node takes).
+	pub(crate) fn add_with_height(
+		&self,
+		key: &[u8],
+		trailer: u64,
+		timestamp: u64,
+		value: &[u8],
+		height: u32,
+	) -> Result<(), Error> {
 		let mut ins = Inserter::new();
-		self.add_internal(key, trailer, timestamp, value, &mut ins)
+		self.add_internal(key, trailer, timestamp, value, height, &mut ins)
 	}
 
 	/// Internal add
@@ -323,6 +354,7 @@ impl Skiplist {
 		trailer: u64,
 		timestamp: u64,
 		value: &[u8],
+		height: u32,
 		ins: &mut Inserter,
 	) -> Result<(), Error> {
 		// Find splice
@@ -331,7 +363,7 @@ impl Skiplist {
 		}
 
 		// Allocate node
-		let (nd, height) = self.new_node(key, trailer, timestamp, value)?;
+		let nd = self.new_node(key, trailer, timestamp, value, height)?;
 		let nd_offset = self.arena.get_pointer_offset(nd as *const u8);
 
 		// Link at each level
@@ -408,8 +440,8 @@ impl Skiplist {
 		trailer: u64,
 		timestamp: u64,
 		value: &[u8],
-	) -> Result<(*mut Node, u32), Error> {
-		let height = self.random_height();
+		height: u32,
+	) -> Result<*mut Node, Error> {
 		let nd = new_node(&self.arena, height, key, trailer, timestamp, value)
 			.ok_or(Error::ArenaFull)?;
 
@@ -427,18 +459,7 @@ impl Skiplist {
 			}
 		}
 
-		Ok((nd, height))
-	}
-
-	/// Random height
-	fn random_height(&self) -> u32 {
-		let rnd: u32 = rand::rng().random();
-		let mut h = 1u32;
-		let probs = probabilities();
-		while h < MAX_HEIGHT as u32 && rnd <= probs[h as usize] {
-			h += 1;
-		}
-		h
+		Ok(nd)
 	}
 
 	/// Find splice
